@@ -24,6 +24,7 @@ from sc3.base.stream import Routine, Stream, stream
 from sc3.seq.pattern import Pattern
 from sc3.seq.patterns.listpatterns import Pseq
 from sc3.seq.patterns.filterpatterns import Pn
+from sc3.seq.patterns.funcpatterns import Pfunc
 from sc3.synth.ugen import ChannelList
 from sc3.base.operand import Operand
 from sc3.seq.event import Rest
@@ -81,6 +82,8 @@ def leaf(d, fns):
         if key not in cache:
             cache[key] = Pseq([num(i) for i in d[1]])     # the same Pattern object wherever it recurs
         return cache[key]
+    if t == 'pfunc':           # value depends on the input passed to next(): c + k * inval, never ends
+        return fns[-1]['__pfunc__'][d[1]]()
     if t == 'pstr':            # an already-made pattern stream (PatternValueStream) yielding varying values
         return stream(Pseq([num(i) for i in d[1]]))
     if t == 'seq':
@@ -232,6 +235,22 @@ def run_util(c):
     raise ValueError(fn)
 
 
+def mk_pfunc(c, k):
+    return lambda: Pfunc(lambda inval: c + k * inval)
+
+
+def observe(obj, ins, x):
+    """next(ins[0]), next(ins[1]), ...: what the stream yields for each input (until it ends)"""
+    s = obj if isinstance(obj, Stream) else stream(obj)
+    out = []
+    for v in ins:
+        try:
+            out.append(s.next(v))
+        except StopIteration:
+            break
+    return ['s', [deep(i, x) for i in out]]
+
+
 def main():
     cases = json.load(open(sys.argv[1]))['cases']
     out = []
@@ -240,6 +259,10 @@ def main():
             if c['k'] == 'expr':
                 x = ([num(v) for v in c['pos']], {NAMES[n]: num(v) for n, v in c['kw']})
                 fns = [mk_fn(f) for f in c['fns']] + [{}]      # last entry: per-case cache of Pattern objects
+                if c.get('ins') is not None:
+                    fns[-1]['__pfunc__'] = [mk_pfunc(num(cc), num(k)) for cc, k in c['ifns']]
+                    out.append(observe(build(c['e'], fns), [num(v) for v in c['ins']], x))
+                    continue
                 obj = build(c['e'], fns)
                 if c.get('twice') and isinstance(obj, AbstractFunction):
                     # warm-up call with OTHER arguments: a composite that caches operand values from its
